@@ -72,7 +72,7 @@ std::vector<std::string> TaprootCommitmentEnv::Description() {
         auto node_begin = m_control.data() + TAPROOT_CONTROL_BASE_SIZE + TAPROOT_CONTROL_NODE_SIZE * i;
         rv.push_back(strprintf("Branch: %s", HexStr(Span<const unsigned char>(node_begin, TAPROOT_CONTROL_NODE_SIZE)).c_str()));
     }
-    rv.push_back(strprintf("Tweak: %s", m_p.ToString().c_str()));
+    // one line per step: the final step tweaks the internal key with the root and compares with the output key
     rv.push_back(strprintf("CheckTapTweak"));
     return rv;
 }
